@@ -175,3 +175,74 @@ func VUnusableEcKeys() [][]byte {
 		wrap([]byte{0x05, 0x00}, okInner),
 	}
 }
+
+// vhSpkiPoint: C05 / C01, "the certificate carries the generated key": for
+// every curve and every private scalar (all bytes symbolic, so coordinates
+// with leading zero octets are included) the subjectPublicKey that
+// SetPrivateKey puts into the certificate body is the uncompressed point
+// 04 || X || Y with both coordinates at the full field length, the curve
+// parameter is the curve's OID, and the key written to the artifact file
+// (PKCS#8) embeds the same point and reads back as the same key.
+func vhSpkiPoint() {
+	sel := vChoose("alg", len(vCurveAlgs))
+	ctx := NewCertificateContext(nil, nil, time.Unix(0, 0), time.Unix(1, 0))
+	vAssert(ctx.GeneratePrivateKey(vCurveAlgs[sel]) == nil, "EC key generation failed")
+	curve := ctx.PrivateKey.(*ecdsa.PrivateKey).Curve
+	N := curve.Params().N
+	L := (N.BitLen() + 7) / 8
+	raw := vBytes("d", L)
+	d := new(big.Int).SetBytes(raw)
+	vAssume(d.Sign() > 0)
+	vAssume(d.Cmp(N) < 0)
+	x, y := curve.ScalarBaseMult(raw)
+	bl := (curve.Params().BitSize + 7) / 8
+	if !vSymbolic() {
+		// replay: the model's public point (an injective function of the scalar)
+		// is not the real one, so a counterexample about a coordinate's length
+		// does not carry over scalar by scalar. Natively the harness takes the
+		// first real key pair with a coordinate shorter than the field (about
+		// one key in 128; the case a counterexample of this harness is about)
+		for k := int64(1); k < 20000; k++ {
+			kb := big.NewInt(k).FillBytes(make([]byte, L))
+			rx, ry := curve.ScalarBaseMult(kb)
+			if rx.BitLen() <= 8*(bl-1) || ry.BitLen() <= 8*(bl-1) {
+				d, x, y = big.NewInt(k), rx, ry
+				break
+			}
+		}
+	}
+	key := &ecdsa.PrivateKey{PublicKey: ecdsa.PublicKey{Curve: curve, X: x, Y: y}, D: d}
+	ctx2 := NewCertificateContext(nil, nil, time.Unix(0, 0), time.Unix(1, 0))
+	err := ctx2.SetPrivateKey(key)
+	vAssert(err == nil, "SetPrivateKey refused a valid EC key")
+	if err != nil {
+		return
+	}
+	vReach("set")
+	want := vCatBytes([]byte{4}, x.FillBytes(make([]byte, bl)), y.FillBytes(make([]byte, bl)))
+	got := ctx2.TbsCertificate.PublicKey.PublicKey.Bytes
+	vAssert(len(got) == len(want), "subjectPublicKey is not 04 || X || Y at the full field length (length)")
+	if len(got) == len(want) {
+		vAssert(vBytesEq(got, want), "subjectPublicKey is not the uncompressed public point of the key")
+	}
+	oidBytes, oerr := asn1.Marshal(curveNameOids[curve.Params().Name])
+	vAssert(oerr == nil, "curve OID")
+	pb := ctx2.TbsCertificate.PublicKey.Algorithm.Parameters.FullBytes
+	vAssert(len(pb) == len(oidBytes) && vBytesEq(pb, oidBytes), "the SubjectPublicKeyInfo does not name the key's curve")
+	der, merr := MarshalPKCS8PrivateKey(key)
+	vAssert(merr == nil, "the key cannot be written as PKCS#8")
+	if merr != nil {
+		return
+	}
+	back, perr := ParsePKCS8PrivateKey(der)
+	vAssert(perr == nil, "the written key cannot be read back")
+	if perr != nil {
+		return
+	}
+	k2, ok := back.(*ecdsa.PrivateKey)
+	vAssert(ok && k2.X != nil && k2.Y != nil, "the key read back is not an EC key pair")
+	if !ok || k2.X == nil || k2.Y == nil {
+		return
+	}
+	vAssert(k2.D.Cmp(d) == 0 && k2.X.Cmp(x) == 0 && k2.Y.Cmp(y) == 0, "the key read back is another key")
+}
